@@ -24,6 +24,7 @@
    never read by the executable part. *)
 From TV.Lib Require Import Base.
 From TV.Stream Require Import Gen.
+Close Scope N_scope.   (* Gen.v opens it; this development writes %N explicitly *)
 
 Inductive side := A | B.          (* A = the connecting end, B = the accepted end *)
 Definition other (x : side) := match x with A => B | B => A end.
